@@ -151,6 +151,17 @@ func seq(hists [][]string) {
 		}
 		for si, op := range h {
 			kind, id := op[:1], op[1:]
+			if kind == "F" {
+				// fails in the second group, after the first one was compiled; what it returns is not judged here
+				bad := basePolicy(2)
+				bad.Syscalls = append(bad.Syscalls[:1:1], seccomp.SyscallGroup{Action: seccomp.ActionTrap, Names: []string{"write", "verif_no_such_syscall"}},
+					seccomp.SyscallGroup{Action: seccomp.ActionKillProcess, NamesWithCondtions: []seccomp.NameWithConditions{{Name: "read",
+						Conditions: []seccomp.Condition{{Argument: 9, Operation: seccomp.Equal, Value: 1}}}}})
+				compileBytes(&bad)
+				dumpBytes(&bad)
+				rep.Checked++
+				continue
+			}
 			if kind == "X" {
 				// the caller rewrites its own values: each now equals what the other was
 				p0, p1 := get("0"), get("1")
